@@ -101,6 +101,20 @@ impl<A> vstd::std_specs::core::IndexSpecImpl<usize> for Lane<A> {
 //@endif
 }
 
+// element assignment `view[i] = x`: offered with its real contract so that code which overwrites
+// elements is checked against the permutation postconditions instead of falling outside the shim
+impl<A> std::ops::IndexMut<usize> for Lane<A> {
+    #[verifier::external_body]
+    fn index_mut(&mut self, i: usize) -> (r: &mut A)
+//@ifmode N
+        ensures *r == old(self)@[i as int], final(self)@ == old(self)@.update(i as int, *final(r))
+//@endif
+//@ifmode P
+        ensures i < old(self)@.len(), *r == old(self)@[i as int], final(self)@ == old(self)@.update(i as int, *final(r))
+//@endif
+    { &mut self.v[i] }
+}
+
 pub struct Axis(pub usize);
 pub struct Slice { pub start: usize, pub end: Option<usize> }
 impl From<std::ops::RangeTo<usize>> for Slice {
